@@ -15,7 +15,7 @@ from ..core import AnalysisError
 from ..linemodel import LineMachine
 from ..pyabs import W, PyRaise, Raised, NonUniform, LexUnknown
 
-GLUE = {"(", ")", ","}
+GLUE = {"(", ")", ",", "="}
 WIDTH = 6
 # a line may not start with one of these inside a statement (C05 excludes it; C03 / the line machine treat them as statement starts)
 LINE_WORDS = {"CREATE", "ALTER", "DROP", "SET", "GO", "USE", "INSERT", "GRANT", "DELETE"}
